@@ -197,6 +197,17 @@ impl<const N: usize> Bindings<N> {
         self.state.lock(|cell| cell.borrow().clone())
     }
 
+    /// Drop every binding whose fabric `exists` does not confirm, returning
+    /// whether anything was removed.
+    fn retain_fabrics(&self, mut exists: impl FnMut(NonZeroU8) -> bool) -> bool {
+        self.state.lock(|cell| {
+            let mut state = cell.borrow_mut();
+            let before = state.len();
+            state.retain(|binding| exists(binding.fab_idx));
+            state.len() < before
+        })
+    }
+
     /// Serialise the registry to `ctx.kv()` under [`BINDINGS_KEY`].
     fn store_persist<C: HandlerContext>(&self, ctx: &C) -> Result<(), Error> {
         let mut persist = Persist::new(ctx.kv());
@@ -450,9 +461,26 @@ impl<const N: usize> ClusterHandler for BindingHandler<'_, N> {
 
     fn lifecycle(&self, ctx: impl HandlerContext, op: LifecycleOp) -> Result<(), Error> {
         match op {
-            LifecycleOp::Startup => ctx
-                .kv()
-                .access(|store, buf| self.bindings.load_persist(store, buf)),
+            LifecycleOp::Startup => {
+                ctx.kv()
+                    .access(|store, buf| self.bindings.load_persist(store, buf))?;
+
+                // Bindings are written through to the store at once while their fabric may
+                // still be pending under the fail-safe, and a fabric removal updates the
+                // fabric's key and this registry's key one after the other: after a power cut
+                // the store may hold bindings of a fabric that does not exist. They must not
+                // come back - the next fabric that gets that index would inherit them
+                let stale = ctx.matter().with_state(|state| {
+                    self.bindings
+                        .retain_fabrics(|fab_idx| state.fabrics.get(fab_idx).is_some())
+                });
+
+                if stale {
+                    self.bindings.store_persist(&ctx)?;
+                }
+
+                Ok(())
+            }
             LifecycleOp::FactoryReset => ctx
                 .kv()
                 .access(|store, buf| self.bindings.reset_persist(store, buf)),
